@@ -66,5 +66,8 @@ def runA (t : Ty) (a16 : Nat) (i1 i2 : Init) (pre : Bytes) : String :=
           match assign t i2 s1 with
           | .ok o2 => s!"a2={resStr o2.res} p2={probeStr t ⟨a16, o2.bytes⟩}"
           | _ => "a2=FAULT"
-      s!"{resStr o.res} {maskedHex o.bytes b2} p={probeStr t s1} {second}"
+      -- what the first assignment needs (`sizeSpec`, or `unrep`) and what it has (`as_bytes().len()` of the target)
+      let need := if repB t i1 then toString (sizeSpec t i1) else "unrep"
+      let v0 := match t.dict.viewLen s.len with | .ok v => toString v | _ => "?"
+      s!"{resStr o.res} {maskedHex o.bytes b2} p={probeStr t s1} {second} need={need} v0={v0}"
 end Drv
